@@ -8,7 +8,7 @@ Set Warnings "-ambiguous-paths".
 From Coquelicot Require Import Coquelicot.
 From PyLib Require Import PyVal PyBuiltins Ideal.
 From Gen Require Import M_base M_Angle M_Interpolation.
-From Proofs.C12 Require C12_defs C12_main C12_gen C12_gend.
+From Proofs.C12 Require C12_defs C12_main C12_gen C12_gend C12_rootany.
 From Spec Require Newton.
 From Proofs.C12 Require Import C12_tac C12_nd C12_dup3 C12_ctor3 C12_ctor4 C12_ideal C12_root C12_witness.
 Import ListNotations.
@@ -383,6 +383,30 @@ Proof.
   - intros xl xh. exact (root3_in_table x1 x2 x3 y1 y2 y3 t0 t1 t2 H12 H23 xl xh mi Hmi).
 Qed.
 
+(* [ideal] root() on EVERY stored table of n = 3..64 points (symbolic lists, any ordinates, any coefficient table of
+   length n), with NO assumption about callees: __call__ and derivative are total there (float or ValueError,
+   C12_gen.call_total / C12_gend.deriv_total), so for max_iter in 0..4999 the outcome of root(xl, xh) is a float inside
+   the ordered, clamped interval at which __call__ (Icall: node ordinate within tol of a node, else the Horner value)
+   is <= tol in absolute value, or ValueError - nothing else.  Same partial-correctness caveat and entry paths
+   as C12_root_sound. *)
+Theorem C12_root_any : forall (xs ys tbl : list R),
+  List.length ys = List.length xs -> List.length tbl = List.length xs -> (3 <= List.length xs)%nat ->
+  let T := C12_gen.tobj xs ys (C12_gen.flist tbl) in
+  let I := C12_gen.Icall xs ys tbl in
+  let xmin := C12_gen.nthR xs 0 in let xmax := C12_gen.nthR xs (List.length xs - 1) in
+  forall xl xh mi, (0 <= mi < 5000)%Z ->
+  (xl <> 0 -> xl + C12_gen.tol0 <= xh -> xmin <= xl -> xh <= xmax ->
+     good C12_gen.tol0 I xl xh (Interpolation_root Rops T (VFloat xl) (VFloat xh) (VInt mi))) /\
+  (xl <> 0 -> xh + C12_gen.tol0 <= xl -> xmin <= xh -> xl <= xmax ->
+     good C12_gen.tol0 I xh xl (Interpolation_root Rops T (VFloat xl) (VFloat xh) (VInt mi))) /\
+  (xl <> 0 -> xh < xmin -> xmax < xl -> xmin + C12_gen.tol0 <= xmax ->
+     good C12_gen.tol0 I xmin xmax (Interpolation_root Rops T (VFloat xl) (VFloat xh) (VInt mi))) /\
+  (xl <> 0 -> xl < xmin -> xmin + C12_gen.tol0 <= xh -> xh <= xmax ->
+     good C12_gen.tol0 I xmin xh (Interpolation_root Rops T (VFloat xl) (VFloat xh) (VInt mi))) /\
+  (xmin + C12_gen.tol0 <= xmax ->
+     good C12_gen.tol0 I xmin xmax (Interpolation_root Rops T (VFloat 0) (VFloat 0) (VInt mi))).
+Proof. intros xs ys tbl L Lt Hn T I xmin xmax xl xh mi Hmi. exact (C12_rootany.root_any xs ys tbl L Lt Hn xl xh mi Hmi). Qed.
+
 (* [binary64] kernel evaluation of the generated root()/minmax() on the explicit grid C12_defs.grid
    (24 tables of 2-6 points given shuffled; every ordered pair of limits from: one below the table,
    every node, every midpoint, 1.5 above the table): a returned float lies in the clamped interval and
@@ -416,5 +440,6 @@ Redirect "C12_refused_any.assumptions" Print Assumptions C12_refused_any.
 Redirect "C12_root_step.assumptions" Print Assumptions C12_root_step.
 Redirect "C12_root_sound.assumptions" Print Assumptions C12_root_sound.
 Redirect "C12_root_witness.assumptions" Print Assumptions C12_root_witness.
+Redirect "C12_root_any.assumptions" Print Assumptions C12_root_any.
 Redirect "C12_grid_b64.assumptions" Print Assumptions C12_grid_b64.
 Redirect "C12_grid_found.assumptions" Print Assumptions C12_grid_found.
